@@ -1098,6 +1098,8 @@ impl TypeChecker {
     }
 
     fn find(&mut self, TyID(a): TyID) -> TyID {
+        #[cfg(sylt_verif)]
+        sylt_common::verif::tick();
         let mut root = a;
         while let Some(TyID(next)) = self.types[root].parent {
             root = next;
